@@ -194,13 +194,16 @@ def sort_of(sp):
     return sort_of(sp[2]) if sp[0] in ("plain_ann", "plain_ann2") else H.sort_of(sp)
 
 
+from .engine_hashcons import _attrs  # noqa: E402
+
+
 def deep(a, claripy, memo):
     Base = claripy.ast.Base
     if isinstance(a, Base):
         k = id(a)
         if k in memo:
             return memo[k]
-        anns = [json.dumps([type(x).__name__, sorted((kk, repr(vv)) for kk, vv in vars(x).items())]) for x in a.annotations]
+        anns = [json.dumps([type(x).__name__, sorted((kk, repr(vv)) for kk, vv in _attrs(x).items())]) for x in a.annotations]
         r = json.dumps([type(a).__name__, a.op, getattr(a, "length", None), [deep(x, claripy, memo) for x in a.args], anns,
                         sorted(a.variables), bool(a.symbolic)])
         memo[k] = r
@@ -354,6 +357,18 @@ def execute(rec):
                 blob = pickle.dumps(objs, cfg.get("proto", 4))
             except Exception as e:  # noqa: BLE001
                 raise H.Broken("pickle-failed", {"op_index": last, "exc": {"type": type(e).__name__, "msg": str(e)[:200]}}) from None
+            # A0: within the process, while the originals are alive, unpickling gives the original objects - also for
+            # expressions whose annotations have no __eq__ / __hash__ of their own
+            try:
+                back0 = pickle.loads(blob)
+            except Exception as e:  # noqa: BLE001
+                raise H.Broken("unpickle-failed", {"op_index": last, "where": "same process, originals alive",
+                                                   "exc": {"type": type(e).__name__, "msg": str(e)[:200]}}) from None
+            for it, a0, b0 in zip(items, objs, back0):
+                if b0 is not a0:
+                    raise H.Broken("unpickled-expression-not-identical-while-original-alive", {
+                        "op_index": last, "spec": it["spec"], "same_structure": deep(b0, claripy, {}) == it["deep"]})
+            back0 = b0 = a0 = None
             if cfg.get("mode") == "same":
                 # the "crash" keeps the process: every reference is dropped and collected, then the blob is loaded
                 objs = None
